@@ -4,26 +4,29 @@ at full strength.  Each one is a closed term evaluated by the kernel (`decide`),
 the driver as a protocol line and replayed on the real implementation on every run.
 -/
 import CaddyModel.C05.Spec
+import CaddyModel.C05.OldModel
 import CaddyModel.C05.WitnessData
 
 namespace CaddyModel.C05
 
 /-
-FULL STATEMENT (false):
-    ∀ routes hasErrs errs req, serve routes hasErrs errs req = eval routes hasErrs errs req
-"the handlers that run and their order are exactly those the routing rules prescribe".
-`Subroute.ServeHTTP` compiles the REST OF THE CHAIN into its own primary routes, so a subroute with
-error routes also catches an error raised by a later route, runs its error routes (handler 9) and
-then the rest of the chain a second time (handler 3 runs twice).
+The code BEFORE the repair of `Subroute.ServeHTTP` (OldModel.lean) did not satisfy
+    ∀ routes hasErrs errs req, serve routes hasErrs errs req = eval routes hasErrs errs req :
+it compiled the REST OF THE CHAIN into the subroute's primary routes and diverted every error
+coming back to the subroute's error routes, so a subroute with error routes also caught an error
+raised by a LATER route, ran its error routes (handler 9) and then the rest of the chain a second
+time (handler 3 ran twice).  The repaired code is `Props.compile_correct`.
 -/
-theorem compile_correct_full_fails :
-    ∃ routes hasErrs errs req, serve routes hasErrs errs req ≠ eval routes hasErrs errs req :=
+theorem compile_correct_old_code_fails :
+    ∃ routes hasErrs errs req, serveOld routes hasErrs errs req ≠ eval routes hasErrs errs req :=
   ⟨wDownstreamRoutes, false, [], wReq, by decide⟩
 
-/-- the same witness, spelled out: the code runs handlers 1, 3, 9, 3 — the rules say 1, 3 -/
-theorem handler_runs_twice_behind_subroute_with_errors :
-    (serve wDownstreamRoutes false [] wReq).trace.map (·.id) = [1, 3, 9, 3] ∧
-    (eval wDownstreamRoutes false [] wReq).trace.map (·.id) = [1, 3] := by decide
+/-- the same witness, spelled out: the old code ran handlers 1, 3, 9, 3 — the rules, and the
+    repaired code, say 1, 3 -/
+theorem old_code_ran_handler_twice_behind_subroute_with_errors :
+    (serveOld wDownstreamRoutes false [] wReq).trace.map (·.id) = [1, 3, 9, 3] ∧
+    (eval wDownstreamRoutes false [] wReq).trace.map (·.id) = [1, 3] ∧
+    (serve wDownstreamRoutes false [] wReq).trace.map (·.id) = [1, 3] := by decide
 
 /-
 "with the original URI restored" holds for the SERVER's error routes only: the error routes of a
